@@ -3,28 +3,58 @@
 // treat a goroutine waiting for a sync.Mutex as durably blocked, so such a wait freezes
 // the bubble's fake clock; a channel receive is durable. Lock/Unlock semantics are
 // unchanged (no TryLock, no fairness guarantee either way).
+//
+// Engine T (package sched) installs a Hook: every Lock and Unlock of a shimmed mutex then
+// becomes a scheduling point of the calling goroutine, if that goroutine is one of the
+// scheduler's controlled threads.
 package syncshim
 
-import "sync"
+import (
+	"sync"
+	"sync/atomic"
+)
+
+// Hooks are the scheduling-point callbacks of a controlled scheduler.
+type Hooks struct {
+	BeforeLock  func(m *Mutex)
+	AfterUnlock func(m *Mutex)
+}
+
+var hook atomic.Pointer[Hooks]
+
+// SetHook installs (or, with nil, removes) the scheduling-point callbacks.
+func SetHook(h *Hooks) { hook.Store(h) }
 
 type Mutex struct {
 	once sync.Once
 	ch   chan struct{}
+	held atomic.Bool
 }
 
 func (m *Mutex) init() { m.once.Do(func() { m.ch = make(chan struct{}, 1) }) }
 
+// Held reports whether the mutex is locked right now.
+func (m *Mutex) Held() bool { return m.held.Load() }
+
 func (m *Mutex) Lock() {
 	m.init()
+	if h := hook.Load(); h != nil {
+		h.BeforeLock(m)
+	}
 	m.ch <- struct{}{}
+	m.held.Store(true)
 }
 
 func (m *Mutex) Unlock() {
 	m.init()
+	m.held.Store(false)
 	select {
 	case <-m.ch:
 	default:
 		panic("syncshim: unlock of unlocked mutex")
+	}
+	if h := hook.Load(); h != nil {
+		h.AfterUnlock(m)
 	}
 }
 
